@@ -1,1 +1,178 @@
-//! Hooks of group 'storage' for the /verif machinery.
+//! Hooks of group 'storage' for the /verif machinery (C03, C12, C13).
+//!
+//! Only wrappers around crate-private constructors / accessors. Nothing here is reachable
+//! without the `verif-hooks` feature and nothing changes server behaviour.
+use crate::credential::apppwd::ApplicationPassword;
+use crate::credential::totp::Totp;
+use crate::credential::{BackupCodes, Credential, CredentialType, Password};
+use crate::prelude::*;
+use crate::server::keys::KeyId;
+use crate::value::{KeyStatus, KeyUsage};
+use crypto_glue::traits::Zeroizing;
+use std::collections::BTreeSet;
+use time::OffsetDateTime;
+
+// ---------------------------------------------------------------------------------------------
+// credentials (C12)
+
+/// As the crate-private `Credential::new_from_password` (imported / pre-hashed passwords).
+pub fn cred_from_password(pw: Password, ts: OffsetDateTime) -> Credential {
+    Credential::new_from_password(pw, ts)
+}
+
+pub fn cred_from_generated_password(pw: Password, ts: OffsetDateTime) -> Credential {
+    Credential::new_from_generatedpassword(pw, ts)
+}
+
+/// As the crate-private `Credential::append_totp`. Labels must be new.
+pub fn cred_append_totp(c: &Credential, label: &str, totp: Totp, ts: OffsetDateTime) -> Credential {
+    c.append_totp(label.to_string(), totp, ts)
+}
+
+pub fn cred_set_backup_codes(
+    c: &Credential,
+    codes: BTreeSet<String>,
+    ts: OffsetDateTime,
+) -> Result<Credential, OperationError> {
+    c.update_backup_code(BackupCodes::new(codes.into_iter().collect()), ts)
+}
+
+pub fn cred_uuid(c: &Credential) -> Uuid {
+    c.uuid
+}
+
+pub fn cred_kind(c: &Credential) -> &'static str {
+    match &c.type_ {
+        CredentialType::Password(_) => "password",
+        CredentialType::GeneratedPassword(_) => "generatedpassword",
+        CredentialType::PasswordMfa(..) => "passwordmfa",
+        CredentialType::Webauthn(_) => "webauthn",
+    }
+}
+
+/// TOTP factors of a credential, sorted by label.
+pub fn cred_totps(c: &Credential) -> Vec<(String, Totp)> {
+    let mut v: Vec<(String, Totp)> = match &c.type_ {
+        CredentialType::PasswordMfa(_, totp, _, _) => {
+            totp.iter().map(|(l, t)| (l.clone(), t.clone())).collect()
+        }
+        _ => Vec::new(),
+    };
+    v.sort_by(|a, b| a.0.cmp(&b.0));
+    v
+}
+
+/// None = the credential has no backup code set.
+pub fn cred_backup_code_verify(c: &Credential, code: &str) -> Option<bool> {
+    match &c.type_ {
+        CredentialType::PasswordMfa(_, _, _, Some(b)) => Some(b.verify(code)),
+        _ => None,
+    }
+}
+
+pub fn apppwd_parts(ap: &ApplicationPassword) -> (Uuid, Uuid, String, Password) {
+    (
+        ap.uuid,
+        ap.application,
+        ap.label.clone(),
+        ap.password.clone(),
+    )
+}
+
+// ---------------------------------------------------------------------------------------------
+// key objects (C12): `KeyId` lives in a crate-private module.
+
+pub fn key_internal_value(
+    id: &str,
+    usage: KeyUsage,
+    valid_from: u64,
+    status: KeyStatus,
+    status_cid: Cid,
+    der: Vec<u8>,
+) -> Value {
+    Value::KeyInternal {
+        id: KeyId::from(id),
+        usage,
+        valid_from,
+        status,
+        status_cid,
+        der: Zeroizing::new(der),
+    }
+}
+
+/// (id, usage, valid_from, status, status_cid, der) of a `Value::KeyInternal`.
+#[allow(clippy::type_complexity)]
+pub fn key_internal_parts(v: &Value) -> Option<(String, KeyUsage, u64, KeyStatus, Cid, Vec<u8>)> {
+    match v {
+        Value::KeyInternal {
+            id,
+            usage,
+            valid_from,
+            status,
+            status_cid,
+            der,
+        } => Some((
+            id.as_str().to_string(),
+            *usage,
+            *valid_from,
+            *status,
+            status_cid.clone(),
+            der.to_vec(),
+        )),
+        _ => None,
+    }
+}
+
+// ---------------------------------------------------------------------------------------------
+// values whose constructors need crates the harness does not link (C12)
+
+/// `Value::WebauthnAttestationCaList` built from (pem, aaguid, description) triples.
+pub fn att_ca_list_value(devices: &[(&str, Uuid, &str)]) -> Option<Value> {
+    let mut b = webauthn_rs::prelude::AttestationCaListBuilder::new();
+    for (pem, aaguid, desc) in devices {
+        b.insert_device_pem(pem.as_bytes(), *aaguid, desc.to_string(), Default::default())
+            .ok()?;
+    }
+    Some(Value::WebauthnAttestationCaList(b.build()))
+}
+
+/// A freshly generated ES256 signing key as a value (server randomness; never feeds an oracle).
+pub fn jws_es256_value() -> Option<Value> {
+    compact_jwt::JwsEs256Signer::generate_es256()
+        .ok()
+        .map(Value::JwsKeyEs256)
+}
+
+/// A freshly generated legacy RS256 signing key as a value.
+pub fn jws_rs256_value() -> Option<Value> {
+    compact_jwt::crypto::JwsRs256Signer::generate_rs256()
+        .ok()
+        .map(Value::JwsKeyRs256)
+}
+
+/// Private key DER of a jws key value (to compare key material before/after a round trip).
+pub fn jws_private_der(v: &Value) -> Option<Vec<u8>> {
+    match v {
+        Value::JwsKeyEs256(k) => k.private_key_to_der().ok().map(|d| d.to_vec()),
+        Value::JwsKeyRs256(k) => k.private_key_to_der().ok().map(|d| d.to_vec()),
+        _ => None,
+    }
+}
+
+// ---------------------------------------------------------------------------------------------
+// consistency check and backend access (C03, C13)
+
+/// The crate-private `QueryServerReadTransaction::verify`, rendered as strings (empty = clean).
+pub fn qs_verify(txn: &mut QueryServerReadTransaction<'_>) -> Vec<String> {
+    txn.verify()
+        .into_iter()
+        .filter_map(|r| r.err().map(|e| format!("{e:?}")))
+        .collect()
+}
+
+pub use crate::be::verif as be;
+
+/// The crate-private `Value::validate` (what the server accepts as a well-formed value).
+pub fn value_validate(v: &Value) -> bool {
+    v.validate()
+}
